@@ -150,7 +150,7 @@ def run_case(args):
     pat = R.choice(PATS)
     a = R.randint(1, n)
     b = R.randint(a, n)
-    loc = R.choice(['', '', '', '%', '%d,%d' % (a, b), '%d,$' % a, '1,%d' % b])
+    loc = R.choice(['', '', '', '%', '%d,%d' % (a, b), '%d,$' % a, '1,%d' % b, '%d,%d' % (a, b)] + (['1,/%s/' % R.choice(['a', 'o', 'x']), '/%s/,$' % R.choice(['a', 'o', 'b']), '/%s/,/%s/' % (R.choice(['a', 'o']), R.choice(['x', 'b', 'foo'])), '?%s?,$' % R.choice(['a', 'o'])] if idx % 4 == 0 else []))
     cmds = gen_list(R)
     if big:
         cmds = R.choice([[{'cmd': 'y', 'loc': '', 'arg': ''}, {'cmd': 'pu', 'loc': '', 'arg': ''}],
@@ -200,6 +200,12 @@ def run_case(args):
         M.cur = max(0, min(M.cur, M.n() - 1))
         if (a > M.n() or b > M.n()) and loc not in ('', '%'):
             return ('cut', None, None, 0)
+    prefail = b''
+    if not big and M.n() and R.random() < 0.1:
+        # a command line that edits and then fails, directly in front of the global: the global is still an undo step of its own
+        sub_cmd(M, '1', '$', 'Q', False)
+        prefail = b'1s/$/Q/|' + R.choice([b'99999p', b'nosuchcommand', b"'zp"]) + b'\n'
+    before_model = gen.buf_bytes(M.texts())
     try:
         M.executions = 0
         model_glob(M, loc, pat, neg, cmds)
@@ -213,7 +219,7 @@ def run_case(args):
     blocks = b''
     if txt:
         blocks = (''.join(t + '\n' for t in txt) + '.\n').encode() * (M.executions + 3)
-    script = pre + b'w! d0\n' + gcmd + blocks + b'ec ' + S(1) + b'\n.=\nec ' + S(2) + b'\nw! d1\nu\nw! d2\n'
+    script = pre + b'w! d0\n' + prefail + gcmd + blocks + b'ec ' + S(1) + b'\n.=\nec ' + S(2) + b'\nw! d1\nu\nw! d2\n'
     r, d = common.run_ex(vi, script, files={'f1': gen.buf_bytes(lines)}, timeout=60)
     d0, d1, d2 = (common.readf(d, x) for x in ('d0', 'd1', 'd2'))
     common.rmcase(d)
@@ -227,8 +233,10 @@ def run_case(args):
     desc = '%s on %r' % (common.show(gcmd, 120), lines)
     if d1 != want:
         return ('global:result', '%s: buffer is %r, reference %r (reference ran %d executions)' % (desc, common.show(d1, 250), common.show(want, 250), M.executions), wit, 0)
+    if prefail:
+        d0 = before_model      # (no dump between the failing line and the global: any successful command there would hide the effect)
     if d2 != d0 and d1 != d0:
-        return ('global:undo-not-one-step', '%s: one undo after the global gives %r, text before the global was %r' % (desc, common.show(d2, 200), common.show(d0, 200)), wit, 0)
+        return ('global:undo-not-one-step', '%s%s: one undo after the global gives %r, text before the global was %r' % ('after the line %s ' % common.show(prefail, 30) if prefail else '', desc, common.show(d2, 200), common.show(d0, 200)), wit, 0)
     out = r.out
     if S(1) in out and S(2) in out and d1 != d0:
         cur = out.split(S(1), 1)[1].split(S(2), 1)[0]
